@@ -156,6 +156,67 @@ check(
     "3/C20",
 )
 
+check(
+    "C03",
+    "stateless DFS over every interleaving of 2-3 tasks running scope scripts on the real "
+    "context; per-task reference environment",
+    "All well-nested scripts up to length L for each task, every start position and start "
+    "method (ctx.spawn / create_task), every interleaving at the pauses between operations; "
+    "each task's probes must equal its own reference whatever the others did.",
+    "asyncio context inheritance for create_task; bounded script length and task count.",
+    "3/C03",
+)
+check(
+    "C09",
+    "stateless DFS over every linearisation of scope enter/exit events for all scope trees up to "
+    "N nodes (inline / spawned / create_task placement) on the real completion protocol",
+    "Every tree, placement and linearisation within the bound is executed; exactly-once, "
+    "after-subtree, is_completed/time stability and 'leaving never fails' are checked from the "
+    "event log.",
+    "a nested scope counts for an ancestor if created before the ancestor's callback fired.",
+    "3/C09",
+)
+check(
+    "C10",
+    "stateless DFS over all interleavings of recording tasks over scope trees on the real "
+    "metrics context vs scope-stack + left-fold reference",
+    "Every placement of up to R records (types, merges incl. raising and non-commutative) and "
+    "every interleaving; per-scope values and the root's merged view compared in completion "
+    "callbacks.",
+    "truthy metric classes; records through a completed scope are dropped.",
+    "3/C10",
+)
+check(
+    "C11",
+    "exhaustive enumeration of generator shape x creation place x consumption place x "
+    "consumption mode on the real ctx.stream with owned GC / finalisation points",
+    "The whole grid is executed; items/outcome, creation-context inside the generator, consumer "
+    "fingerprint stability, completion of the creating scope and a clean loop exception handler "
+    "are checked on each.",
+    "GC at fixed points; a never-started dropped stream is outside the statement for completion.",
+    "3/C11",
+)
+check(
+    "C18",
+    "exhaustive grid enumeration with gated real worker threads; every order of worker release "
+    "vs loop heartbeat (DFS, prefix replay)",
+    "Signature x call form x receiver x outcome x executor x caller context for asynchronous / "
+    "wrap_async / traced, plus metadata for all seven decorators; identity of result/exception, "
+    "bound arguments, thread, caller-state visibility, no leak, trace records.",
+    "threads are gated and joined (no unowned races); debug mode.",
+    "3/C18",
+)
+check(
+    "C19",
+    "exhaustive enumeration of scope tree x logger / trace id / name x log-call grammar on the "
+    "real context logging vs a tree interpreter over captured records",
+    "Every node option combination up to N nodes, every position, level and message form; "
+    "logger, level, tagging, trace-id inheritance, uniqueness and 'never lost / never raises' "
+    "checked for every call.",
+    "records captured on the root logger (propagation); logger identity = record.name.",
+    "3/C19",
+)
+
 NOT_BUILT_REASON = (
     "check not built yet in this round (design in DESIGN.md section 3); not claimed until its "
     "harness exists and is silent on the unchanged tree"
